@@ -499,6 +499,15 @@ def scene_recipes(tier, seed, scale):
                         "leap_steps": rng.randint(1, 5), "dim": rng.choice([1, 2, 3, 5]), "dtype": rng.choice(["float64", "float64", "float32"]),
                         "param_dtype": rng.choice(["default", "default", "torch.float64"]), "find_step_size": rng.bernoulli(0.15),
                         "adapt_start": rng.choice([None, None, 3, 8]), "adapt_end": rng.choice([None, None, 12])})
+        elif u >= 0.95:
+            from sim.scenelib import CLI_MODEL_VECTORS
+
+            sub = rng.choice(["mcmc", "hmc", "advi"])
+            args = list(rng.choice(CLI_MODEL_VECTORS))
+            if sub == "hmc":
+                args += ["--steps", "2", "--step_size", "0.001"] + rng.choice([[], ["--adapt_step_size", "adaptive"], ["--adapt_step_size", "dualaveraging"], ["--adapt_mass_matrix"]])
+            it = {"mcmc": 150, "hmc": 6, "advi": 6}[sub]
+            out.append({"kind": "cli", "sub": sub, "args": args, "iterations": it, "freq": {"mcmc": 50, "hmc": 2, "advi": 3}[sub], "convergence": rng.bernoulli(0.5)})
         else:
             sub, args, it, fr = rng.choice(clis)
             mult = rng.randint(1, 3)
